@@ -106,6 +106,7 @@ def r2(cx):
         for exp in ([True] if t["expired"] else [True, False]):
             tp = dict(t)
             tp.update({"hard_delete": False, "replace": False, "expired": exp})
+            tp["expired_by_retention"] = tp["retention_pos"] and tp["expired"]
             if not cp.feasible(tp):
                 continue
             if cp.decide(rows, tp) is True:
